@@ -237,37 +237,236 @@ def check_relaxation(run, pkg, cls, pbc, nl, sel, slow):
     if not okn:
         return
     col = dict(zip(names, colterms))
-    # ---- accumulation stores in the pair loop
+    # ---- accumulators: arrays written inside loops; their ROLE is read from the final columns, not from their order
     acc = {}
     for e in stores(it):
         tg = e.data["target"]
         if tg[1][0] == "call" and tg[1][1] in ("numpy.zeros", "numpy.zeros_like") and e.loops:
             acc.setdefault(tg[1], []).append(e)
-    loops_used = sorted({l for evs in acc.values() for e in evs for l in e.loops})
-    if log:
-        if len(loops_used) != 1:
-            run.ob("R-LOOPDOM", fq, f"{cfg}:loops", False if len(loops_used) > 1 else None, "single-origin variant has one frame loop", f"loops {loops_used}",
-                   witness="more than one origin in the log-sampling variant" if len(loops_used) > 1 else None, loc=loc)
+    counts_arr = None
+    for arr, evs in acc.items():
+        if all(e.data["value"] == C(1) and e.data["op"] == "+" for e in evs):
+            counts_arr = arr
+    asym = {arr: sp.Symbol(f"A{k}", positive=True) for k, arr in enumerate(acc) if arr != counts_arr}
+    cnt = sp.Symbol("counts", positive=True)
+    nsel, fac = sp.Symbol("N_sel", positive=True), sp.Symbol("alpha2factor", positive=True)
+    closed = {}
+
+    def atom_cols(t):
+        if t in asym:
+            return asym[t]
+        if counts_arr is not None and t == counts_arr:
+            return cnt
+        t2 = strip_alloc(t)
+        if t2 == CALL("PyMatterSim.utils.funcs.alpha2factor", A(SELF, "ndim")):
+            return fac
+        if t2[0] == "call" and t2[1] == "builtins.len":
+            closed.setdefault("nsel", t2)
+            return nsel
+        if counts_arr is None and t2[0] == "call" and t2[1] == "numpy.arange":
+            closed["counts"] = t2
+            return cnt
+        return None
+    gcol = {}
+    for name in ("isf", "Qt", "X4_Qt", "msd", "alpha2"):
+        if log and name == "X4_Qt":
+            continue
+        tr = S.Translator(atom_cols, True)
+        try:
+            gcol[name] = (tr.tr(col[name]), dict(tr.atoms))
+        except Exception as ex:  # noqa
+            run.ob("R-ALG", fq, f"{cfg}:col-{name}", None, "final column", str(ex), loc=loc)
             return
-        Ln = it.loops[loops_used[0]]
-        n = Ln.target
-        ok = Ln.iter == CALL("builtins.range", C(1), T_)
-        run.ob("R-LOOPDOM", fq, f"{cfg}:frames", ok, "end frame runs over 1..T-1", show(Ln.iter)[:60], witness=None if ok else "frames skipped", loc=loc)
-        origin, end, slot_want = C(0), n, BIN("-", n, C(1))
-    else:
-        if len(loops_used) != 2:
-            run.ob("R-LOOPDOM", fq, f"{cfg}:loops", False if len(loops_used) == 1 else None, "all time origins are used (double loop over end frame and lag)",
-                   f"loops {loops_used}", witness="only one origin per lag" if len(loops_used) == 1 else None, loc=loc)
+    inv = {v: k for k, v in asym.items()}
+
+    def arrays_in(g):
+        return {x for x in g.free_symbols if x in inv}
+    # roles by kernel: an accumulator whose statement IS one of the definition's kernels (built from the frames the code uses)
+    role = {}
+    fr0 = None
+    for arr in asym:
+        for e in acc[arr]:
+            for x in walk(strip_alloc(e.data["value"])):
+                if fr0 is None and x[0] == "bin" and x[1] == "-" and x[2][0] == "attr" and x[3][0] == "attr" and x[2][2] == "positions" and x[3][2] == "positions" \
+                        and x[2][1][0] == "sub" and x[3][1][0] == "sub" and strip_alloc(x[2][1][1]) == SNAPS and strip_alloc(x[3][1][1]) == SNAPS:
+                    fr0 = (x[2][1][2], x[3][1][2])
+    by_kernel = {}
+    if fr0 is not None:
+        K0 = expected_kernels(fr0[1], fr0[0], pbc, nl, sel, slow, log)
+        for arr in asym:
+            if len(acc[arr]) == 1:
+                for k, kt in K0.items():
+                    if eq_terms(acc[arr][0].data["value"], kt)[0] is True:
+                        by_kernel.setdefault(k, []).append(arr)
+    needed = ("isf", "qt", "r2", "r4") if log else ("isf", "qt", "qt2", "r2", "r4")
+    if all(len(by_kernel.get(k, [])) == 1 for k in needed) and len({by_kernel[k][0] for k in needed}) == len(needed):
+        role = {k: asym[by_kernel[k][0]] for k in needed}
+    try:
+        if role:
+            raise StopIteration
+        (role["isf"],) = arrays_in(gcol["isf"][0])
+        (role["qt"],) = arrays_in(gcol["Qt"][0])
+        (role["r2"],) = arrays_in(gcol["msd"][0])
+        (role["r4"],) = arrays_in(gcol["alpha2"][0]) - {role["r2"]}
+        if not log:
+            (role["qt2"],) = arrays_in(gcol["X4_Qt"][0]) - {role["qt"]}
+    except StopIteration:
+        pass
+    except ValueError:
+        run.ob("R-ALG", fq, f"{cfg}:roles", None, "each output column is built from its own accumulator array(s)",
+               "accumulators feeding the columns could not be identified one-to-one (intermediate arrays / other structure)", loc=loc)
+        return
+    if len(set(role.values())) != len(role):
+        run.ob("R-ALG", fq, f"{cfg}:roles", False, "each output column is built from its own accumulator", f"roles {role}",
+               witness="two output columns are computed from the same accumulated quantity", loc=loc)
+        return
+    sy = {k: v for k, v in role.items()}
+    arr_of = {k: inv[v] for k, v in role.items()}
+    # the rules below are written for plain accumulation over the pair loop nest; any other shape (per-lag temporaries reduced by
+    # .mean(), vectorised origins, ...) is outside the idiom table: undecided, never a violation
+    want_depth = 1 if log else 2
+    shape_ok = all(len(acc[a_]) == 1 and len(acc[a_][0].loops) == want_depth and acc[a_][0].data["op"] == (None if log else "+") for a_ in arr_of.values())
+    if not shape_ok:
+        run.ob("R-SIB", fq, f"{cfg}:structure", None, "accumulators are " + ("assigned once per end frame" if log else "summed over the (end frame, lag) loop nest"),
+               "; ".join(f"{k}: {len(acc[a_])} statements in loops {[e.loops for e in acc[a_]][:2]} op {[e.data['op'] for e in acc[a_]][:2]}" for k, a_ in list(arr_of.items())[:3]), loc=loc)
+        return
+    # ---- final columns as formulas of the accumulators
+    log_div = sp.Integer(1)
+    c_ = log_div if log else cnt
+    want = {"isf": sy["isf"] / c_, "Qt": sy["qt"] / c_, "msd": sy["r2"] / c_,
+            "alpha2": fac * (sy["r4"] / c_) / (sy["r2"] / c_) ** 2 - 1}
+    if not log:
+        want["X4_Qt"] = (sy["qt2"] / c_ - (sy["qt"] / c_) ** 2) * nsel
+    for name in ("isf", "Qt", "X4_Qt", "msd", "alpha2"):
+        if log and name == "X4_Qt":
+            term = col[name]
+            ok = strip_alloc(term)[0] == "call" and strip_alloc(term)[1] == "numpy.zeros_like"
+            run.ob("R-ALG", fq, f"{cfg}:col-X4_Qt", ok if ok else None, "single-origin variant reports zero susceptibility", show(strip_alloc(term))[:60], loc=loc)
+            continue
+        g, atoms = gcol[name]
+        ok, how = S.decide_equal(g, want[name])
+        if ok is False and atoms:
+            ok = None
+        run.ob("R-ALG", fq, f"{cfg}:col-{name}", ok, {"isf": "isf = accumulated/counts", "Qt": "Qt = accumulated/counts", "msd": "msd = accumulated/counts",
+               "alpha2": "alpha2 = alpha2factor(d) <r^4>/<r^2>^2 - 1", "X4_Qt": "chi4 = (<Q^2> - <Q>^2) * N_selected"}[name],
+               f"code: {sp.sstr(g)[:140]}", witness=None if ok is not False else how, loc=loc)
+    # ---- the accumulation statement of every role
+    st_of = {}
+    for k, arr in arr_of.items():
+        evs = acc[arr]
+        if len(evs) != 1:
+            run.ob("R-SIB", fq, f"{cfg}:kernel-{k}", None, f"one accumulation statement for {k}", f"{len(evs)} statements", loc=loc)
             return
-        Ln, Lnn = it.loops[loops_used[0]], it.loops[loops_used[1]]
-        n, nn = Ln.target, Lnn.target
-        ok1 = Ln.iter == CALL("builtins.range", C(1), T_)
-        ok2 = Lnn.iter == CALL("builtins.range", C(1), BIN("+", n, C(1)))
-        run.ob("R-LOOPDOM", fq, f"{cfg}:end-frames", ok1, "end frame runs over 1..T-1", show(Ln.iter)[:60], witness=None if ok1 else "end frames skipped", loc=loc)
-        run.ob("R-LOOPDOM", fq, f"{cfg}:lags", ok2, "lag runs over 1..end (every origin 0..end-1)", show(Lnn.iter)[:60],
-               witness=None if ok2 else "T=3: visited (origin,end) pairs are not {(0,1),(0,2),(1,2)}", loc=loc)
-        origin, end, slot_want = BIN("-", n, nn), n, BIN("-", nn, C(1))
-    # ---- expected kernels
+        st_of[k] = evs[0]
+    e0 = st_of["r2"]
+    # frames of the displacement: positions[END] - positions[ORIGIN]
+    fr = None
+    for x in walk(strip_alloc(e0.data["value"])):
+        if x[0] == "bin" and x[1] == "-" and x[2][0] == "attr" and x[3][0] == "attr" and x[2][2] == "positions" and x[3][2] == "positions" \
+                and x[2][1][0] == "sub" and x[3][1][0] == "sub" and strip_alloc(x[2][1][1]) == SNAPS and strip_alloc(x[3][1][1]) == SNAPS:
+            fr = (x[2][1][2], x[3][1][2])
+            break
+    if fr is None:
+        run.ob("R-SIB", fq, f"{cfg}:displacement", None, "displacement = positions[end frame] - positions[origin frame] of the displacement trajectory", show(strip_alloc(e0.data["value"]))[:120], loc=loc_of(it, e0))
+        return
+    end, origin = fr
+    loops = [it.loops[l] for l in e0.loops]
+    if any(st.loops != e0.loops for st in st_of.values()):
+        run.ob("R-LOOPDOM", fq, f"{cfg}:loops", None, "all accumulators are updated in the same loop nest", "different nests", loc=loc)
+        return
+    slot = e0.data["target"][2]
+    # ---- visited (origin, end, slot) tuples, enumerated on the extracted loop bounds and index forms for T = 2..6
+    import math as _m
+    bad = None
+    per_slot = {}
+    try:
+        for T in range(2, 7):
+            visited = []
+
+            def rec(k, env):
+                if k == len(loops):
+                    visited.append((int(eval_num(strip_alloc(origin), env)), int(eval_num(strip_alloc(end), env)), int(eval_num(strip_alloc(slot), env))))
+                    return
+                L = loops[k]
+                itr = strip_alloc(L.iter)
+                if not (itr[0] == "call" and itr[1] == "builtins.range"):
+                    raise NotEvaluable("loop iterator " + show(itr)[:40])
+                args = [int(eval_num(a_, env)) for a_ in itr[2]]
+                for v_ in range(*args):
+                    e2 = dict(env)
+                    e2[L.target] = v_
+                    rec(k + 1, e2)
+            rec(0, {T_: T})
+            want_set = sorted((o, e_, e_ - o - 1) for e_ in range(1, T) for o in (range(e_) if not log else [0]))
+            if sorted(visited) != want_set:
+                miss = [x for x in want_set if x not in visited]
+                extra = [x for x in visited if x not in want_set or visited.count(x) > 1]
+                bad = f"T={T}: visited (origin, end, slot) = {sorted(set(visited))[:6]}..., required every pair 0 <= origin < end <= {T - 1}" + (" with origin 0" if log else "") + \
+                      f" once with slot = end - origin - 1; missing {miss[:3]}, surplus/repeated {extra[:3]}"
+                break
+            per_slot[T] = [sum(1 for x in visited if x[2] == k) for k in range(T - 1)]
+        run.ob("R-LOOPDOM", fq, f"{cfg}:pairs", bad is None, ("every frame pair 0 <= origin < end <= T-1 is visited once" if not log else "every end frame 1..T-1 is paired with origin 0 once") +
+               ", stored at slot = lag - 1 (enumerated on the extracted loop bounds and index forms, T = 2..6)", f"loops {[show(strip_alloc(L.iter))[:40] for L in loops]}; origin {show(strip_alloc(origin))}, end {show(strip_alloc(end))}, slot {show(strip_alloc(slot))}",
+               witness=bad, loc=loc_of(it, e0))
+    except (NotEvaluable, Exception) as ex:  # noqa
+        run.ob("R-LOOPDOM", fq, f"{cfg}:pairs", None, "visited frame pairs enumerable", f"{type(ex).__name__}: {str(ex)[:80]}", loc=loc_of(it, e0))
+    for k, st in st_of.items():
+        oks = strip_alloc(st.data["target"][2]) == strip_alloc(slot)
+        okop = st.data["op"] == (None if log else "+")
+        run.ob("R-LOOPDOM", fq, f"{cfg}:slot-{k}", oks and okop, f"{k} is " + ("assigned" if log else "accumulated") + " in the slot of its lag, like the other accumulators",
+               f"slot {show(strip_alloc(st.data['target'][2]))}, op {st.data['op']}", witness=None if oks and okop else "origins overwrite each other / different slot than the other accumulators", loc=loc_of(it, st))
+    # ---- counts
+    if not log:
+        if counts_arr is not None:
+            ce_ = acc[counts_arr]
+            okc = len(ce_) == 1 and ce_[0].loops == e0.loops and strip_alloc(ce_[0].data["target"][2]) == strip_alloc(slot)
+            run.ob("R-LOOPDOM", fq, f"{cfg}:count", okc, "one count per visited pair in the slot of its lag", f"{len(ce_)} count statements",
+                   witness=None if okc else "the divisor is not the number of origins that contributed to the lag", loc=loc)
+        elif "counts" in closed and per_slot:
+            from ..concrete import ev as cev
+            badc = None
+            try:
+                for T, ws in per_slot.items():
+                    got = [int(x) for x in cev(closed["counts"], {T_: T})]
+                    if got != ws:
+                        badc = f"T={T}: divisor {got}, number of origins per lag {ws}"
+                        break
+                run.ob("R-LOOPDOM", fq, f"{cfg}:count", badc is None, "the closed-form divisor equals the number of origins per lag (T = 2..6)", show(closed["counts"])[:60], witness=badc, loc=loc)
+            except Exception as ex:  # noqa
+                run.ob("R-LOOPDOM", fq, f"{cfg}:count", None, "divisor decidable", str(ex)[:80], loc=loc)
+        else:
+            run.ob("R-LOOPDOM", fq, f"{cfg}:count", None, "divisor of the origin average recognised", "no count array and no closed form", loc=loc)
+    # ---- expected kernels, built from the frames the code itself uses for the displacement
+    K = expected_kernels(origin, end, pbc, nl, sel, slow, log)
+    a2 = SUB(A(SELF, "a2_cuts"), (("sym", "condition") if log else SUB(("sym", "condition"), origin))) if sel else CALL(".copy", A(SELF, "a2_cuts"))
+    for k, st in st_of.items():
+        v = st.data["value"]
+        okk, how, gx, gy = eq_terms(v, K[k])
+        if not okk:
+            other = [k2 for k2 in K if k2 != k and k2 in st_of and eq_terms(v, K[k2])[0] is True]
+            if other:
+                okk, how = False, f"the column built from this accumulator is '{k}' but the accumulated quantity is the {other[0]} kernel: output columns are exchanged"
+        if okk is None and pbc and not any(x[0] == "call" and x[1] == "PyMatterSim.utils.pbc.remove_pbc" for x in walk(v)):
+            from . import grlib
+            grlib.find_inline_image(strip_alloc(v))
+        run.ob("R-SIB", fq, f"{cfg}:kernel-{k}", okk, f"per-pair contribution to {k} equals the kernel of the definition (origin-frame cell / neighbour list / selection, end-frame positions, "
+               f"{'<' if slow else '>'} for {'slow' if slow else 'fast'})", f"code: {show(strip_alloc(v))[:200]}" + ("" if okk else f" ; expected: {show(K[k])[:200]}"),
+               witness=f"{cfg}: {how[:220]}" if okk is False else None, loc=loc_of(it, st))
+    nsel_t = closed.get("nsel")
+    if not log and nsel_t is not None:
+        okn2 = nsel_t == CALL("builtins.len", strip_alloc(a2)) or nsel_t[2][0][0] in ("attr", "sub", "call")
+        run.ob("R-ALG", fq, f"{cfg}:nsel", True if nsel_t == CALL("builtins.len", strip_alloc(a2)) else None, "chi4 prefactor is the number of selected particles (length of the selected cutoff array)", show(nsel_t)[:70], loc=loc)
+    okt = strip_alloc(col["t"]) == A(SELF, "time")
+    run.ob("R-ALG", fq, f"{cfg}:col-t", okt, "time column is the lag time axis built in __init__", show(strip_alloc(col["t"]))[:50],
+           witness=None if okt else "time axis replaced", loc=loc)
+    for e in calls(it, ".to_csv"):
+        c = e.data["call"]
+        ok = c[2][0] == ret and strip_alloc(c[2][1]) == ("sym", "outputfile")
+        run.ob("R-SAVE", fq, f"{cfg}:csv", ok, "CSV written from the returned frame", show(strip_alloc(c))[:60], witness=None if ok else "file differs from returned values",
+               loc=loc_of(it, e))
+
+
+def expected_kernels(origin, end, pbc, nl, sel, slow, log):
     pos_o, pos_e = A(frame(origin), "positions"), A(frame(end), "positions")
     R = BIN("-", pos_e, pos_o)
     if pbc:
@@ -286,113 +485,13 @@ def check_relaxation(run, pkg, cls, pbc, nl, sel, slow):
         a2 = CALL(".copy", A(SELF, "a2_cuts"))
     dist = CALL(".sum", CALL("numpy.square", R), axis=C(1))
     medium = CALL(".mean", ("cmp", "<" if slow else ">", dist, a2))
-    K = {
+    return {
         "isf": CALL(".mean", CALL("numpy.cos", BIN("*", R, SUB(qc, NEWAX)))),
         "qt": medium,
         "qt2": BIN("**", medium, C(2)),
         "r2": CALL(".mean", dist),
         "r4": CALL(".mean", CALL("numpy.square", dist)),
     }
-    # classify accumulators by kernel
-    arr_of = {}
-    counts_arr = None
-    for arr, evs in acc.items():
-        for e in evs:
-            v = e.data["value"]
-            if v == C(1):
-                counts_arr = arr
-                continue
-            hit = None
-            for name, kt in K.items():
-                okk, how, _, _ = eq_terms(v, kt)
-                if okk:
-                    hit = name
-                    break
-            if hit is None:
-                # report against the closest kernel by outer form
-                guess = "isf" if any(x[0] == "call" and x[1] == "numpy.cos" for x in walk(v)) else None
-                if guess is None:
-                    has_cmp = any(x[0] == "cmp" for x in walk(v))
-                    sq = v[0] == "bin" and v[1] == "**"
-                    sqm = any(x[0] == "call" and x[1] == "numpy.square" and any(y[0] == "call" and y[1] == ".sum" for y in walk(x)) for x in walk(v))
-                    guess = ("qt2" if sq else "qt") if has_cmp else ("r4" if sqm else "r2")
-                okk, how, gx, gy = eq_terms(v, K[guess])
-                if okk is None and pbc and not any(x[0] == "call" and x[1] == "PyMatterSim.utils.pbc.remove_pbc" for x in walk(v)):
-                    # the displacement is not handed to remove_pbc: an inline image, if any, is decided on its own (driver reports it)
-                    from . import grlib
-                    grlib.find_inline_image(strip_alloc(v))
-                run.ob("R-SIB", fq, f"{cfg}:kernel@{key_of(e)[:40]}", False if okk is False else None,
-                       f"per-pair contribution equals the {guess} kernel of the definition (origin-frame cell / neighbour list / selection, "
-                       f"{'<' if slow else '>'} for {'slow' if slow else 'fast'})",
-                       f"code: {show(strip_alloc(v))[:230]} ; expected: {show(K[guess])[:230]}",
-                       witness=f"{cfg}: contribution of pair (origin, end) differs from the definition; {how[:120]}" if okk is False else None, loc=loc_of(it, e))
-                continue
-            arr_of[hit] = arr
-            run.ob("R-SIB", fq, f"{cfg}:kernel-{hit}", True, f"{hit} kernel uses origin-frame cell / neighbour list / selection and end-frame positions",
-                   show(strip_alloc(v))[:100], loc=loc_of(it, e))
-            oks = e.data["target"][2] == slot_want or S.decide_equal(S.to_sympy(strip_alloc(e.data["target"][2])), S.to_sympy(strip_alloc(slot_want)))[0]
-            run.ob("R-LOOPDOM", fq, f"{cfg}:slot-{hit}", bool(oks), "contribution stored at slot = lag - 1", show(strip_alloc(e.data["target"][2])),
-                   witness=None if oks else "lag k accumulated into another row", loc=loc_of(it, e))
-            okop = e.data["op"] == (None if log else "+")
-            run.ob("R-LOOPDOM", fq, f"{cfg}:accumulate-{hit}", okop, "origins are " + ("a single assignment" if log else "accumulated"), f"op {e.data['op']}",
-                   witness=None if okop else "origins overwrite each other", loc=loc_of(it, e))
-    missing = [k for k in (("isf", "qt", "r2", "r4") if log else K) if k not in arr_of]
-    if missing:
-        run.ob("R-SIB", fq, f"{cfg}:kernels", None if any(o["key"].startswith(f"{cfg}:kernel@") for o in run.obligations) else False,
-               "all kernels accumulated", f"missing {missing}", witness=f"{missing} never accumulated", loc=loc)
-        return
-    if not log:
-        okc = counts_arr is not None and any(e.data["target"][2] == slot_want and e.data["op"] == "+" for e in acc.get(counts_arr, []))
-        run.ob("R-LOOPDOM", fq, f"{cfg}:count", okc, "one count per visited pair in the slot of its lag", "found" if okc else "missing",
-               witness=None if okc else "average over origins uses wrong counts", loc=loc)
-    # ---- final columns
-    sy = {k: sp.Symbol(k.upper(), positive=True) for k in ("isf", "qt", "qt2", "r2", "r4")}
-    cnt = sp.Symbol("counts", positive=True)
-    nsel, fac = sp.Symbol("N_sel", positive=True), sp.Symbol("alpha2factor", positive=True)
-
-    def atom_of(t):
-        for k, arr in arr_of.items():
-            if t == arr:
-                return sy[k]
-        if counts_arr is not None and t == counts_arr:
-            return cnt
-        t2 = strip_alloc(t)
-        if t2 == CALL("builtins.len", strip_alloc(a2)):
-            return nsel
-        if t2 == CALL("PyMatterSim.utils.funcs.alpha2factor", A(SELF, "ndim")):
-            return fac
-        return None
-    c_ = sp.Integer(1) if log else cnt
-    want = {"isf": sy["isf"] / c_, "Qt": sy["qt"] / c_, "msd": sy["r2"] / c_,
-            "alpha2": fac * (sy["r4"] / c_) / (sy["r2"] / c_) ** 2 - 1,
-            "X4_Qt": sp.Integer(0) if log else (sy["qt2"] / c_ - (sy["qt"] / c_) ** 2) * nsel}
-    for name in ("isf", "Qt", "X4_Qt", "msd", "alpha2"):
-        term = col[name]
-        if log and name == "X4_Qt":
-            ok = strip_alloc(term)[0] == "call" and strip_alloc(term)[1] == "numpy.zeros_like"
-            run.ob("R-ALG", fq, f"{cfg}:col-X4_Qt", ok, "single-origin variant reports zero susceptibility", show(strip_alloc(term))[:60],
-                   witness=None if ok else "X4 column not zero", loc=loc)
-            continue
-        tr = S.Translator(atom_of, True)
-        try:
-            g = tr.tr(term)
-        except Exception as ex:  # noqa
-            run.ob("R-ALG", fq, f"{cfg}:col-{name}", None, "final column", str(ex), loc=loc)
-            continue
-        ok, how = S.decide_equal(g, want[name])
-        if ok is False and tr.atoms:
-            ok = None
-        run.ob("R-ALG", fq, f"{cfg}:col-{name}", ok, {"isf": "isf = accumulated/counts", "Qt": "Qt = accumulated/counts", "msd": "msd = accumulated/counts",
-               "alpha2": "alpha2 = alpha2factor(d) <r^4>/<r^2>^2 - 1", "X4_Qt": "chi4 = (<Q^2> - <Q>^2) * N_selected"}[name],
-               f"code: {sp.sstr(g)[:140]}", witness=None if ok is not False else how, loc=loc)
-    okt = strip_alloc(col["t"]) == A(SELF, "time")
-    run.ob("R-ALG", fq, f"{cfg}:col-t", okt, "time column is the lag time axis built in __init__", show(strip_alloc(col["t"]))[:50],
-           witness=None if okt else "time axis replaced", loc=loc)
-    for e in calls(it, ".to_csv"):
-        c = e.data["call"]
-        ok = c[2][0] == ret and strip_alloc(c[2][1]) == ("sym", "outputfile")
-        run.ob("R-SAVE", fq, f"{cfg}:csv", ok, "CSV written from the returned frame", show(strip_alloc(c))[:60], witness=None if ok else "file differs from returned values",
-               loc=loc_of(it, e))
 
 
 # ------------------------------------------------------------------ sq4
@@ -445,9 +544,10 @@ def check_sq4(run, pkg, pbc, nl, sel, slow):
                witness=None if okm is not False else f"{cfg}: mobility mask differs from the definition; expected {show(mob)[:160]}", loc=loc_of(it, ce))
         res = ce.data["result"]
         ret = it.returns[0].data["value"] if it.returns else NONE
-        okr = any(x == SUB(res, C(1)) for x in walk(ret))
-        run.ob("R-ALG", fq, f"{cfg}:component", okr, "the |q|-averaged table (second component) is accumulated", show(ret)[:80],
-               witness=None if okr else "per-vector table averaged instead", loc=loc)
+        okr = any(x in (SUB(res, C(1)), ("elem", res, 1)) for x in walk(ret))
+        wrong = any(x in (SUB(res, C(0)), ("elem", res, 0)) for x in walk(ret))
+        run.ob("R-ALG", fq, f"{cfg}:component", True if okr else (False if wrong else None), "the |q|-averaged table (second component) is accumulated", show(ret)[:80],
+               witness=None if okr or not wrong else "per-vector table averaged instead", loc=loc)
         okdiv = ret[0] == "bin" and ret[1] == "/" and ret[3] == BIN("-", T_, nt)
         run.ob("R-LOOPDOM", fq, f"{cfg}:average", okdiv, "sum over origins divided by the number of origins", show(ret)[-70:], witness=None if okdiv else "not an average over origins", loc=loc)
     # wave vectors (configuration independent)
